@@ -29,7 +29,7 @@ pub static DEF: PropDef = PropDef {
     "dev profile with debug assertions and overflow checks (a panic only reachable with overflow checks is still reported; release profile run is part of the thorough tier)",
   ],
   required,
-  post: None,
+  post: Some(post),
   shards: default_shards,
 };
 
@@ -42,7 +42,7 @@ fn cases(t: Tier) -> u64 {
     + n_template_cases()
     + match t {
       Tier::Quick => 24_000,
-      Tier::Thorough => 1_500_000,
+      Tier::Thorough => 200_000,
     }
 }
 
@@ -625,6 +625,133 @@ fn hostile_cbor_docs(rng: &mut Rng) -> Vec<u8> {
   dv::encode(&v, &o, rng)
 }
 
+/// `N` is replaced by an extreme number
+const EXTREME_TEMPLATES: &[&str] = &[
+  "a = [N* (), int]\n",
+  "a = [N*N ()]\n",
+  "a = [N* (? tstr), int]\n",
+  "a = [N* (* tstr), int]\n",
+  "a = [N* g, int]\ng = ()\n",
+  "a = [N*N int]\n",
+  "a = [N* int]\n",
+  "a = [*N int]\n",
+  "a = { N* () }\n",
+  "a = { N* (? \"k\": int) }\n",
+  "a = { N* tstr => int }\n",
+  "a = { *N tstr => int }\n",
+  "a = tstr .size N\n",
+  "a = tstr .size (0..N)\n",
+  "a = bstr .size N\n",
+  "a = [* int] .size N\n",
+  "a = uint .size N\n",
+  "a = uint .bits N\n",
+  "a = 0..N\n",
+  "a = -N..N\n",
+  "a = int .lt N\n",
+  "a = int .ge -N\n",
+  "a = tstr .regexp \"a{N}\"\n",
+  "a = tstr .regexp \"(a{1,N}){1,N}\"\n",
+  "a = tstr .pcre \"(a*)*b\"\n",
+  "a = tstr .pcre \"(a+)+\\\\1b\"\n",
+  "a = tstr .pcre \"^(?=(a+)+b)\"\n",
+  "a = tstr .regexp \"(a*)*b\"\n",
+  "a = #6.N(int)\n",
+  "a = #1.N\n",
+  "a = #7.N\n",
+  "a = int .plus N\n",
+  "a = N .plus N\n",
+  "a = tstr .base10 (0..N)\n",
+  "a = [N* int] / [N* tstr]\n",
+];
+
+const EXTREME_NUMBERS: &[&str] = &["65536", "2147483648", "4000000000", "4000000000000", "9223372036854775807", "18446744073709551615"];
+
+/// extreme numbers inside the schema (occurrence bounds on entries that match nothing, sizes,
+/// range bounds, regexp repetition counts): one deterministic case per (template, number), so
+/// that a hang costs one CPU budget per combination and not one per random repetition
+fn run_extreme(ctx: &mut Ctx, i: usize) {
+  let t = EXTREME_TEMPLATES[i / EXTREME_NUMBERS.len()].replace("N", EXTREME_NUMBERS[i % EXTREME_NUMBERS.len()]);
+  let fam = "extreme-number-in-schema";
+  ctx.count("extreme_number_cases");
+  if i % 4 == 0 {
+    parse_all(ctx, fam, &t);
+  }
+  for d in ["[1]", "[]", "{}", "{\"k\":1}", "\"aaaaaaaaaaaaaaaaaaaaaaaaaaaaaaaa\"", "5", "[1,2,3]"] {
+    val_json(ctx, fam, &t, d, None);
+  }
+  for d in [vec![0x81u8, 0x01], vec![0x80], vec![0xa0], vec![0xa1, 0x61, b'k', 0x01], vec![0x78, 0x20].into_iter().chain(std::iter::repeat(b'a').take(32)).collect(), vec![0x05], vec![0x44, 1, 2, 3, 4]] {
+    val_cbor(ctx, fam, &t, &d, None);
+  }
+}
+
+/// one data item whose (possibly nested) head announces a hostile length
+fn hostile_head_doc(rng: &mut Rng) -> Vec<u8> {
+  let lens: [u64; 16] = [0, 1, 23, 24, 255, 256, 65535, 65536, 1 << 31, (1 << 32) - 1, 1 << 32, 1 << 40, 1 << 62, (1 << 63) - 1, 1 << 63, u64::MAX];
+  let major = *rng.pick(&[2u8, 3, 4, 5]);
+  let n = *rng.pick(&lens);
+  let mut head = vec![];
+  match rng.below(4) {
+    0 if n < 256 => head.extend([major << 5 | 24, n as u8]),
+    1 if n < 65536 => {
+      head.push(major << 5 | 25);
+      head.extend((n as u16).to_be_bytes());
+    }
+    2 if n < (1 << 32) => {
+      head.push(major << 5 | 26);
+      head.extend((n as u32).to_be_bytes());
+    }
+    _ => {
+      head.push(major << 5 | 27);
+      head.extend(n.to_be_bytes());
+    }
+  }
+  let tail_len = rng.usize(6);
+  let tail: Vec<u8> = (0..tail_len).map(|_| *rng.pick(&[0x00u8, 0x01, 0x41, 0x61, 0xff, 0x80])).collect();
+  let mut inner = head;
+  inner.extend(tail);
+  // position of the hostile head
+  let mut out = vec![];
+  match rng.below(9) {
+    0 => out = inner,
+    1 => {
+      out.push(0x5f); // indefinite byte string: the head is a chunk head
+      out.extend(inner);
+    }
+    2 => {
+      out.push(0x7f);
+      out.extend(inner);
+    }
+    3 => {
+      out.push(0x9f);
+      out.extend(inner);
+    }
+    4 => {
+      out.push(0xbf);
+      out.extend(inner);
+    }
+    5 => {
+      out.push(0x81);
+      out.extend(inner);
+    }
+    6 => {
+      out.extend([0xa1, 0x61, b'k']);
+      out.extend(inner);
+    }
+    7 => {
+      out.push(0xc0 | *rng.pick(&[0u8, 1, 2, 3, 4, 5, 21, 22, 23]));
+      out.extend(inner);
+    }
+    _ => {
+      out.extend([0xd8, 24]); // tag 24: encoded CBOR data item
+      out.extend(inner);
+    }
+  }
+  if rng.chance(1, 4) {
+    out.push(0xff);
+  }
+  out
+}
+
 const CSV_DOCS: &[&str] = &[
   "", "\n", "a,b\n1,2\n", "a,b\r\n1,2\r\n", "\"a\"\"b\",c\n", "\"unterminated\n1,2\n", "a\"b,c\n", "1,2,3\n4,5\n6\n", ",,,\n", "\"\",\"\"\n",
   "1e999,-1e999,NaN,inf\n", "18446744073709551616,-9223372036854775809\n", "007,+3,0x10,1.,.5, 1\n", "\u{feff}a,b\n", "a,b\n\n\n1,2\n", "\"a\nb\",c\n", "é,😀\n",
@@ -725,9 +852,14 @@ fn run(ctx: &mut Ctx, idx: u64) {
     run_template(ctx, idx as usize);
     return;
   }
+  let idx = idx - n_template_cases();
+  if (idx as usize) < EXTREME_TEMPLATES.len() * EXTREME_NUMBERS.len() {
+    run_extreme(ctx, idx as usize);
+    return;
+  }
   let mut rng = ctx.rng.clone();
   let corp = corpus::schemas();
-  match *rng.pick(&[0u8, 1, 2, 5, 5, 6, 7, 8, 9, 9]) {
+  match *rng.pick(&[0u8, 1, 2, 3, 3, 5, 5, 6, 7, 8, 9, 9]) {
     0 | 1 => {
       // mutated corpus text through the parse pipeline
       let mut t = rng.pick(corp).clone();
@@ -751,6 +883,13 @@ fn run(ctx: &mut Ctx, idx: u64) {
       let n = 1 + rng.usize(10);
       let t = corpus::random_cddlish(&mut rng, n);
       parse_all(ctx, "token-soup", &t);
+    }
+    3 => {
+      // a head that announces far more than the input holds, in every position a head can occur
+      let b = hostile_head_doc(&mut rng);
+      dec_cbor(ctx, "hostile-head", &b);
+      let s = *rng.pick(&["a = any\n", "a = bstr / tstr / [* any] / { * any => any }\n", "a = #6.2(bstr) / [* bstr] / { * tstr => bstr }\n"]);
+      val_cbor(ctx, "hostile-head", s, &b, None);
     }
     5 | 6 => {
       // corpus schema (possibly mutated) x generated documents
@@ -822,4 +961,9 @@ fn run(ctx: &mut Ctx, idx: u64) {
       val_cbor(ctx, "deep-doc", &s, &c, None);
     }
   }
+}
+
+/// thorough tier: the first 6000 cases again under AddressSanitizer (see san.rs)
+fn post(sum: &mut Summary, tier: Tier, seed: u64) {
+  crate::san::asan_phase(&DEF, sum, tier, seed, 6_000);
 }
